@@ -236,3 +236,11 @@ pub fn appointment_with_blob(loc: u8, len: usize, b0: u8, b1: u8, delay: u32) ->
 pub fn locator_of_tx(n: u32) -> Locator {
     Locator::new(txid_model(&tx(n)))
 }
+
+/// `UserId::to_vec` model (33-byte compressed key; the real one calls libsecp256k1): 0x02 || first raw key byte || zeros.
+pub fn userid_to_vec_model(u: &UserId) -> Vec<u8> {
+    let mut v = vec![0u8; 33];
+    v[0] = 2;
+    v[1] = uid(u);
+    v
+}
